@@ -520,7 +520,7 @@ func runOval(r *hx.Run, g *gen, cfg hx.Config) {
 	ovalWitnesses(r)
 	flavors := []string{"oracle", "suse", "photon", "rhel", "ubuntu"}
 	suseDist := &claircore.Distribution{Name: "SLES", DID: "sles", VersionID: "15.4", Version: "15-SP4", VersionCodeName: ""}
-	for it, n := 0, cfg.N(2500, 15000); it < n && !r.Stop(); it++ {
+	for it, n := 0, cfg.N(5000, 30000); it < n && !r.Stop(); it++ {
 		fl := flavors[it%len(flavors)]
 		b := &ovBuilder{g: g, objs: map[string]string{}, dpkg: fl == "ubuntu"}
 		var parse func(ctx context.Context, feed []byte) ([]*claircore.Vulnerability, error)
